@@ -68,14 +68,15 @@ type Pos struct {
 func noPos() Pos { return Pos{Start: -1, End: -1, Tok: -1, L: -1, R: -1, ElsePos: -1, InPos: -1} }
 
 type Node struct {
-	Kind Kind
-	Name string  // Ident: name; Call: function name
-	S    string  // Str: value
-	I    int64   // Int
-	F    float64 // Float
-	B    bool    // Bool
-	Raw  string  // optional literal spelling (printed instead of the canonical one)
-	Op   string  // Unary, Binary, Assign operator text
+	Kind  Kind
+	Name  string   // Ident: name; Call: function name
+	S     string   // Str: value
+	I     int64    // Int
+	F     float64  // Float
+	B     bool     // Bool
+	Raw   string   // optional literal spelling (printed instead of the canonical one)
+	Signs []string // sign tokens folded into a numeric literal, outermost first (the value already includes them)
+	Op    string   // Unary, Binary, Assign operator text
 
 	X, Y *Node // Unary: X; Binary/In: X op Y; Paren: X; Attr: X.Y; Slice: X[...]; Index: X (Ident, nil for `.[i]`); ForIn: X in Y
 
